@@ -22,6 +22,11 @@ import (
 //	adrpay  <net> <hash> <whash> <tapkey> <blinding key 33>   the ten address methods of payment.Payment
 //	adrscr  <pubkey 33> <redeem script>                payment.FromPublicKey / FromPayment hashes and scripts
 //	adrform <net> <type 0..4> <payload> <key 33>       S only: all clauses of C14 on one (network, type, payload, key)
+//	adrnest 0 <net> <blind 33> <m> <n> <key 33>...      FromPublicKeys -> FromPayment (P2SH-P2WSH multisig)
+//	adrnest 1 <net> <blind 33> <hash 20|32>             FromScript(p2sh / p2wsh script) -> FromPayment
+//	adrnest 2 <net> <blind 33> <pubkey 33>              FromPublicKey -> FromPayment -> FromPayment
+//	                                                   prints hashes, scripts and the ten addresses of the outer payment
+//	                                                   and of every Redeem level
 //	adrhist <s1> <s2>                                  history: decode s1, scribble over every returned slice, the same with
 //	                                                   s2, then decode both again; prints the LAST answers for s1 and s2
 
@@ -660,4 +665,124 @@ func genAdrHist(r *Rng, n int, w *bufio.Writer) {
 func init() {
 	runs["adrhist"] = runAdrHist
 	gens["adrhist"] = genAdrHist
+}
+
+// ---------- nested payments ----------
+
+// adrNestChain builds the nested payment of a case line; wrapped[i] is the payment that was handed
+// to FromPayment to obtain the level whose Redeem is compared with it (nil when none)
+func adrNestChain(t *Toks) (outer *payment.Payment, wrapped []*payment.Payment, ok bool) {
+	kind := t.Int()
+	net := adrNets[t.Int()]
+	bk, err := btcec.ParsePubKey(t.Hex())
+	if err != nil {
+		return nil, nil, false
+	}
+	switch kind {
+	case 0:
+		m, n := t.Int(), t.Int()
+		var keys []*btcec.PublicKey
+		for i := 0; i < n; i++ {
+			k, err := btcec.ParsePubKey(t.Hex())
+			if err != nil {
+				return nil, nil, false
+			}
+			keys = append(keys, k)
+		}
+		inner, err := payment.FromPublicKeys(keys, m, net, bk)
+		if err != nil {
+			return nil, nil, false
+		}
+		out, err := payment.FromPayment(inner)
+		if err != nil {
+			return inner, nil, true
+		}
+		return out, []*payment.Payment{inner}, true
+	case 1:
+		h := t.Hex()
+		var script []byte
+		if len(h) == 20 {
+			script = append(append([]byte{0xa9, 0x14}, h...), 0x87)
+		} else {
+			script = append([]byte{0x00, byte(len(h))}, h...)
+		}
+		p, err := payment.FromScript(script, net, bk)
+		if err != nil {
+			return nil, nil, false
+		}
+		out, err := payment.FromPayment(p)
+		if err != nil {
+			return p, nil, true
+		}
+		return out, []*payment.Payment{p}, true
+	default:
+		pk, err := btcec.ParsePubKey(t.Hex())
+		if err != nil {
+			return nil, nil, false
+		}
+		p := payment.FromPublicKey(pk, net, bk)
+		mid, err := payment.FromPayment(p)
+		if err != nil {
+			return p, nil, true
+		}
+		out, err := payment.FromPayment(mid)
+		if err != nil {
+			return mid, []*payment.Payment{p}, true
+		}
+		return out, []*payment.Payment{mid, p}, true
+	}
+}
+
+func adrLevelLine(p *payment.Payment) string {
+	var b strings.Builder
+	fmt.Fprintf(&b, "h=%s wh=%s s=%s ws=%s", hx(p.Hash), hx(p.WitnessHash), hx(p.Script), hx(p.WitnessScript))
+	for i, m := range adrPayMethods(p) {
+		m := m
+		fmt.Fprintf(&b, " a%d=%s", i, guard(func() string {
+			s, err := m()
+			if err != nil {
+				return "err"
+			}
+			return "ok:" + hxs(s)
+		}))
+	}
+	return b.String()
+}
+
+func runAdrNest(t *Toks) string {
+	outer, _, ok := adrNestChain(t)
+	if !ok {
+		return "badcase"
+	}
+	var parts []string
+	for p := outer; p != nil; p = p.Redeem {
+		parts = append(parts, adrLevelLine(p))
+	}
+	return strings.Join(parts, " ;; ")
+}
+
+func genAdrNest(r *Rng, n int, w *bufio.Writer) {
+	for i := 0; i < n; i++ {
+		net := r.Intn(3)
+		blind := hx(genKey33(r))
+		switch i % 4 {
+		case 0, 1:
+			nk := 2 + r.Intn(3)
+			m := 2 + r.Intn(nk-1)
+			fmt.Fprintf(w, "adrnest 0 %d %s %d %d", net, blind, m, nk)
+			for j := 0; j < nk; j++ {
+				fmt.Fprintf(w, " %s", hx(genKey33(r)))
+			}
+			fmt.Fprintln(w)
+		case 2:
+			fmt.Fprintf(w, "adrnest 1 %d %s %s\n", net, blind, hx(r.Bytes(r.Pick(20, 20, 32))))
+		default:
+			fmt.Fprintf(w, "adrnest 2 %d %s %s\n", net, blind, hx(genKey33(r)))
+		}
+	}
+}
+
+func init() {
+	runs["adrnest"] = runAdrNest
+	gens["adrnest"] = genAdrNest
 }
